@@ -130,6 +130,7 @@ func firstLine(s string) string {
 }
 
 func checkC16(ctx *Ctx) {
+	defer runToOverTo(ctx)
 	ctx.Res.Rule = "random acyclic workflows (1-2 file sources, optional ParamSource, 1-5 processes with 0-2 file in-ports, optional parameter port fed by FromStr or the ParamSource, at most one process without out-ports); for each: Run; every single in-/param-port left unconnected in turn; RunTo over single targets and random target sets by name, by regex and by process; non-trivial = more than one process; distinct by (graph, targets, unplugged port). Checks: refusal before any command, commands executed = exactly the upstream closure with the expected task counts, every process started once."
 	r := NewRng(ctx.Seed)
 	n := 8
@@ -199,6 +200,31 @@ func checkC16(ctx *Ctx) {
 		ctx.Res.Violate(Violation{What: fmt.Sprintf("RunTo on a process whose parameter port is fed by FromStr with more values than the channel buffer: exit %d: %s", rr.Exit, firstLine(rr.Stderr)), Class: class, Witness: long})
 	}
 	os.RemoveAll(rr.Dir)
+}
+
+// connections made with OutPort.To() / OutParamPort.To() are connections like any other: RunTo finds the upstream
+// closure through them
+func runToOverTo(ctx *Ctx) {
+	d := &Desc{Name: "c16to", Max: 2, Nodes: []Node{{Name: "src", Kind: "filesource", Paths: []string{"t.txt"}},
+		{Name: "ps", Kind: "paramsource", Values: []string{"v"}},
+		{Name: "mid", Kind: "proc", Cmd: "( cat {i:in} > {o:out} ; echo {p:p} >> {o:out} )", Outs: map[string]string{"out": "{i:in}.mid"}},
+		{Name: "dst", Kind: "proc", Cmd: "( cat {i:in} > {o:out} )", Outs: map[string]string{"out": "{i:in}.dst"}},
+		{Name: "extra", Kind: "proc", Cmd: "( cat {i:in} > {o:out} )", Outs: map[string]string{"out": "{i:in}.extra"}}},
+		Edges: []Edge{{From: "src.out", To: "mid.in", UseTo: true}, {From: "ps.out", To: "mid.p", Param: true, UseTo: true},
+			{From: "mid.out", To: "dst.in", UseTo: true}, {From: "dst.out", To: "extra.in", UseTo: true}},
+		RunTo: []string{"dst"}, RunToKind: "name"}
+	rr := RunWorkflow(d, RunOpts{Pre: map[string]string{"t.txt": "t\n"}, Timeout: 15e9})
+	defer os.RemoveAll(rr.Dir)
+	ctx.Res.Eval("RunTo over connections made with To()", true, "runto-over-To")
+	ctx.Res.Count("wired-with-To")
+	_, okDst := readFile(rr.Dir, "t.txt.mid.dst")
+	_, okExtra := readFile(rr.Dir, "t.txt.mid.dst.extra")
+	if rr.Exit != 0 || !okDst {
+		ctx.Res.Violate(Violation{What: fmt.Sprintf("RunTo(dst) over connections made with To(): exit %d, output of dst present: %v (%s)", rr.Exit, okDst, firstLine(rr.Stderr)), Class: "c16.run-failed", Witness: "runto-over-To"})
+	}
+	if okExtra {
+		ctx.Res.Violate(Violation{What: "RunTo(dst) executed the process downstream of its target", Class: "c16.outside-started", Witness: "runto-over-To"})
+	}
 }
 
 func init() { checks["C16"] = checkC16 }
